@@ -5,7 +5,7 @@ D = lambda name, *args: (name, list(args))  # noqa: E731
 
 MC_MODELS = {
     "MC_Header": {"tla": "MC_Header.tla", "cfg": "MC_Header.cfg", "workers": 4, "timeout": 300},
-    "MC_Labels": {"tla": "MC_Labels.tla", "cfg": "MC_Labels.cfg", "workers": 6, "timeout": 300},
+    "MC_Labels": {"tla": "MC_Labels.tla", "cfg": "MC_Labels.cfg", "thorough_cfg": "MC_Labels_thorough.cfg", "workers": 8, "timeout": 1800},
     "MC_Memory": {"tla": "MC_Memory.tla", "cfg": "MC_Memory.cfg", "thorough_cfg": "MC_Memory_thorough.cfg", "workers": 8, "timeout": 1500},
     "MC_Frag": {"tla": "MC_Frag.tla", "cfg": "MC_Frag.cfg", "thorough_cfg": "MC_Frag_thorough.cfg", "workers": 8, "timeout": 2400},
     "MC_FragReal": {"tla": "MC_Frag.tla", "cfg": "MC_Frag_real_quick.cfg", "thorough_cfg": "MC_Frag_real.cfg", "workers": 8, "timeout": 900},
